@@ -155,7 +155,19 @@ func (cfgScenario) Build(cfg string) ([]func(), func(*vsched.Sched) []string) {
 	}
 	monitor := func(s *vsched.Sched) []string {
 		if got != underOld && got != underNew {
-			return []string{fmt.Sprintf("call racing %s %d->%d observed {%s}; under old config {%s}; under new config {%s}", name, oldV, newV, got, underOld, underNew)}
+			problems := []string{fmt.Sprintf("C11: call racing %s %d->%d observed {%s}; under old config {%s}; under new config {%s}", name, oldV, newV, got, underOld, underNew)}
+			field := func(s, k string) string {
+				for _, f := range strings.Fields(s) {
+					if strings.HasPrefix(f, k+"=") {
+						return f
+					}
+				}
+				return ""
+			}
+			if name == "to" && field(got, "ran") == "ran=true" && field(got, "deadline") != field(underOld, "deadline") && field(got, "deadline") != field(underNew, "deadline") {
+				problems = append(problems, fmt.Sprintf("C07: the run function of a call racing a Timeout change %d->%d saw %s: neither start+old nor start+new (old: %s, new: %s)", oldV, newV, field(got, "deadline"), field(underOld, "deadline"), field(underNew, "deadline")))
+			}
+			return problems
 		}
 		return nil
 	}
